@@ -10,8 +10,9 @@ from props.c12 import shape
 ID = "C13"
 SECTIONS = ["units"]
 LEAN_MODULES = ["QExPy.Props.C13"]
-LEMMA_MODULES = ["QExPy.Lemmas.UnitParse", "QExPy.Lemmas.ParseSpec", "QExPy.Lemmas.PrintNum", "QExPy.Lemmas.PrintAst"]
-THEOREMS = ["QExPy.C13_separator_tie", "QExPy.C13_roundtrip", "QExPy.C13_assign_twice",
+LEMMA_MODULES = ["QExPy.Lemmas.UnitParse", "QExPy.Lemmas.ParseSpec", "QExPy.Lemmas.PrintNum", "QExPy.Lemmas.PrintAst", "QExPy.Lemmas.DefReqs"]
+THEOREMS = ["QExPy.C13_separator_tie", "QExPy.C13_roundtrip", "QExPy.C13_roundtrip_after_history",
+            "QExPy.C13_assign_twice",
             "QExPy.C13_roundtrip_partial", "QExPy.C13_printed_forms_accepted"]
 RULE = ("exponent maps over 1-4 symbols (every order), integer exponents in [-4,4] without 0 and "
         "the rational exponents that sqrt and the constant powers 1/2, 1/3, 2/3, 3/2 produce, in "
@@ -26,12 +27,15 @@ RULE = ("exponent maps over 1-4 symbols (every order), integer exponents in [-4,
         "non-integer exponent; quick: all single-symbol maps + 500 sampled; thorough: exhaustive")
 ASSUMPTIONS = ["exponents with denominator <= 10 (Fraction.limit_denominator(10) is the identity "
                "there); binary64 exponents p/q are read back as exact fractions",
-               "no compound-unit definitions active (those are C18)"]
+               "no compound-unit definitions active AT THE TIME of the judged print (definitions that "
+               "were active earlier in the session and have been cleared are part of the histories; "
+               "results under active definitions are C18)"]
 TRUSTED = ["modelled not verified: str.format, Fraction.limit_denominator, numpy object arrays"]
-LEVEL_TEXT = ('Lean 4 theorem C13_roundtrip: for every exponent map (any number of well-formed symbols, any non-zero rational exponents) and both styles, the string the model printer writes (incl. the 1/ numerator, bracketed denominators and ^(p/q) powers) is accepted by the model parser and means the same exponents; built on the C12 theorems. Tied to the code by the translator pins and a differential run (exhaustive 111 392 maps x 2 styles in the thorough tier, float power chains, assignment and array edits).')
+LEVEL_TEXT = ('Lean 4 theorem C13_roundtrip: for every exponent map (any number of well-formed symbols, any non-zero rational exponents) and both styles, the string the model printer writes (incl. the 1/ numerator, bracketed denominators and ^(p/q) powers) is accepted by the model parser and means the same exponents; built on the C12 theorems. Tied to the code by the translator pins and a differential run (exhaustive 111 392 maps x 2 styles in the thorough tier, float power chains, assignment and array edits); C13_roundtrip_after_history: the same after any define / print / clear history that ends with no definition active (such histories run before the judged print).')
 LEVEL_NOTE = ("round trip proved for the Lean printer/parser for all exponent maps (any size, any "
               "non-zero rational exponents, both styles); tied to the code by the differential run")
 TECHNIQUE = "Lean 4 theorems over an exact model of printer and parser"
+CLEANROOM = True    # the reported input is confirmed stand-alone in a new process (vf/check.py)
 
 RATS = [F(1, 2), F(3, 2), F(-1, 2), F(-3, 2), F(1, 3), F(2, 3), F(-1, 3), F(4, 3), F(5, 2), F(-2, 3)]
 INTS = [F(e) for e in range(-4, 5) if e != 0]
@@ -139,9 +143,147 @@ def build(q, u, route, mk):
     return (1 / d) if n is None else n / d
 
 
-def observe(q, u, frac, route, arrays, faults=True):
+# ------------------------------------------------------------------ histories before the judged print
+# C13's domain is "no compound-unit definitions active" at the moment a unit is printed.  A session
+# has a past: names were defined, quantities were printed under them, in either style, the
+# definitions were cleared again.  A history (`pre`) runs after the reset and before the judged
+# quantity is built; it always ENDS in the domain (its last definition request is a clear or a
+# rejected definition) and the judged style is set after it.  Steps:
+#   ["define", name, string]      a definition that must be accepted
+#   ["define-bad", name, string]  a definition that must be rejected (caught)
+#   ["style", frac]               q.set_unit_style
+#   ["print", units_json, how]    a throw-away quantity with that exponent map is created and
+#                                 shown: how = "unit" | "str" | "array" | "derived" (product of
+#                                 powers instead of a unit string)
+#   ["clear"]                     q.clear_unit_definitions()
+NAMES = ["N", "J", "Pa", "Wb", "Oh", "Vv"]          # none is a symbol of X.SYMS
+HISTORY_KINDS = ["named:exact", "named:power", "named:reordered", "named:part", "named:unrelated",
+                 "redefined", "style-flip", "printed-before", "neighbour-before",
+                 "defined-never-printed", "rejected-definitions"]
+
+
+def text_of(u, sep="*"):
+    """a unit string for any exponent map (fractions as ^(p/q)), written by the harness"""
+    return sep.join(k if e == 1 else ("{}^{}".format(k, e.numerator) if e.denominator == 1
+                                      else "{}^({}/{})".format(k, e.numerator, e.denominator))
+                    for k, e in u)
+
+
+def history(rng, kind, u, frac):
+    """a history of class `kind` for the judged map u and style; None when it does not apply"""
+    uj = X.units_json(u)
+    name, name2 = rng.sample(NAMES, 2)
+    how = rng.choice(["unit", "unit", "str", "array", "derived"])
+    show = [["print", uj, how]] + ([["print", uj, "unit"]] if rng.random() < 0.3 else [])
+    both = [["style", frac]] + show + ([["style", not frac]] + show if rng.random() < 0.4 else [])
+
+    def scaled(c):
+        v = [(k, e * c) for k, e in u]
+        return v if all(e.denominator <= 10 for _, e in v) else None
+    if kind == "named:exact":
+        return [["define", name, text_of(u)]] + both + [["clear"]]
+    if kind == "named:power":
+        v = scaled(rng.choice([F(1, 2), F(2), F(-1), F(1, 3), F(-2)]))
+        return None if v is None else [["define", name, text_of(v)]] + both + [["clear"]]
+    if kind == "named:reordered":
+        if len(u) < 2:
+            return None
+        v = list(u)
+        rng.shuffle(v)
+        return [["define", name, text_of(v, rng.choice(["*", X.DOT]))]] + both + [["clear"]]
+    if kind == "named:part":
+        if len(u) < 2:
+            return None
+        return [["define", name, text_of(u[:-1])]] + both + [["clear"]]
+    if kind == "named:unrelated":
+        return [["define", "N", "kg*m/s^2"], ["define", "J", "N*m"]] + both + [
+            ["print", X.units_json([("kg", F(1)), ("m", F(1)), ("s", F(-2))]), "unit"], ["clear"]]
+    if kind == "redefined":
+        return [["define", name, text_of(u)]] + show + [
+            ["define", name, "kg*m/s^2"]] + show + [["define", name2, text_of(u)]] + show + [["clear"]]
+    if kind == "style-flip":
+        return [["style", not frac]] + show + [["style", frac]] + show + [["style", not frac]]
+    if kind == "printed-before":
+        return [["style", frac]] + show + show
+    if kind == "neighbour-before":
+        c = rng.choice(["negated", "plus-one", "doubled", "first-only", "plus-half", "minus-half",
+                        "minus-third", "one-plus-half"])
+        shift = {"plus-half": F(1, 2), "minus-half": F(-1, 2), "minus-third": F(-1, 3)}
+        if c in shift:
+            v = [(k, e + shift[c]) for k, e in u]
+        elif c == "one-plus-half":
+            v = [(k, e + (F(1, 2) if i == 0 else 0)) for i, (k, e) in enumerate(u)]
+        else:
+            v = {"negated": [(k, -e) for k, e in u], "plus-one": [(k, e + 1) for k, e in u],
+                 "doubled": [(k, 2 * e) for k, e in u], "first-only": u[:1]}[c]
+        v = [(k, e) for k, e in v if e != 0]
+        if not v or any(e.denominator > 10 for _, e in v):
+            return None
+        return [["style", frac], ["print", X.units_json(v), how]] + show + [
+            ["print", X.units_json(v), "unit"]]
+    if kind == "defined-never-printed":
+        return [["define", name, text_of(u)], ["clear"], ["define", name2, text_of(u)], ["clear"]]
+    if kind == "rejected-definitions":
+        return [["define-bad", name, text_of(u) + ")"], ["define", name, text_of(u)]] + show + [
+            ["clear"], ["define-bad", name, text_of(u) + "^"], ["define-bad", "N 1", text_of(u)]]
+    raise ValueError(kind)
+
+
+def run_pre(q, pre, log):
+    """execute a history on the real library; unexpected outcomes go to `log`"""
+    for st in pre:
+        try:
+            if st[0] == "define":
+                q.define_unit(st[1], st[2])
+            elif st[0] == "define-bad":
+                try:
+                    q.define_unit(st[1], st[2])
+                    log.append([st, "accepted"])
+                except Exception:  # noqa: BLE001  the rejection the caller catches
+                    pass
+            elif st[0] == "style":
+                q.set_unit_style(q.UnitStyle.FRACTION if st[1] else q.UnitStyle.EXPONENTS)
+            elif st[0] == "clear":
+                q.clear_unit_definitions()
+            else:
+                v = X.units_from_json(st[1])
+                if st[2] == "derived":
+                    x = build(q, v, "powers", lambda s_: q.Measurement(2.0, 0.1, unit=s_))
+                elif st[2] == "array":
+                    x = q.MeasurementArray([1.0, 2.0], 0.1, unit=text_of(v))
+                else:
+                    x = q.Measurement(2.0, 0.1, unit=text_of(v))
+                _ = str(x) if st[2] == "str" else x.unit
+        except Exception as e:  # noqa: BLE001
+            log.append([st, "{}: {}".format(type(e).__name__, e)])
+
+
+def pre_reqs(pre):
+    """the define / clear requests of a history as the Lean model reads them"""
+    return [["define", st[1], st[2]] if st[0] in ("define", "define-bad") else ["clear"]
+            for st in pre if st[0] in ("define", "define-bad", "clear")]
+
+
+def pre_in_domain(pre):
+    """does the history end with no definition active (harness's own bookkeeping)?"""
+    active = False
+    for st in pre:
+        if st[0] == "define":
+            active = True
+        elif st[0] == "clear":
+            active = False
+    return not active
+
+
+def observe(q, u, frac, route, arrays, faults=True, pre=()):
     out = {"route": route}
     X.reset(q)
+    if pre:
+        assert pre_in_domain(pre)
+        out["pre_log"] = []
+        with warnings.catch_warnings():
+            warnings.simplefilter("ignore")
+            run_pre(q, pre, out["pre_log"])
     q.set_unit_style(q.UnitStyle.FRACTION if frac else q.UnitStyle.EXPONENTS)
     with warnings.catch_warnings():
         warnings.simplefilter("ignore")
@@ -149,6 +291,9 @@ def observe(q, u, frac, route, arrays, faults=True):
             x = build(q, u, route, lambda s: q.Measurement(2.0, 0.1, unit=s))
             s = x.unit
             out["s"] = s
+            # the other places in which the library prints the unit of this quantity
+            out["shown"] = {"str(a)": str(x).endswith(" [{}]".format(s)) if s else True,
+                            "a.unit again": x.unit == s}
         except Exception as e:  # noqa: BLE001
             out["build_exception"] = "{}: {}".format(type(e).__name__, e)
             return out
@@ -168,8 +313,11 @@ def observe(q, u, frac, route, arrays, faults=True):
             fault("a.unit = 5", lambda: setattr(x, "unit", 5))
             out["s_after_faults"] = x.unit
         try:
-            b = q.Measurement(1.0, 0.1)
+            b = q.Measurement(1.0, 0.1, unit="Q^2/x")
+            shown_before = (str(b), b.unit)          # b is shown, THEN it gets the new unit
             b.unit = s
+            out["shown"]["str(b) after b.unit = a.unit"] = str(b).endswith(" [{}]".format(s)) \
+                if s else True
             if faults:
                 fault("b.unit = 'm2'", lambda: setattr(b, "unit", "m2"))
                 fault("b.unit = a.unit + '^'", lambda: setattr(b, "unit", s + "^"))
@@ -185,6 +333,9 @@ def observe(q, u, frac, route, arrays, faults=True):
             try:
                 arr = build(q, u, route, lambda s: q.MeasurementArray([1.0, 2.0, 3.0], 0.1, unit=s))
                 out["arr_unit"] = arr.unit
+                out["shown"]["str(array)"] = str(arr).endswith(" ({})".format(arr.unit)) if arr.unit \
+                    else True
+                out["shown"]["XYDataSet.xunit"] = q.XYDataSet(arr, [1.0, 2.0, 3.0]).xunit == arr.unit
             except Exception as e:  # noqa: BLE001
                 out["arr_build_exception"] = "{}: {}".format(type(e).__name__, e)
                 arr = None
@@ -207,12 +358,36 @@ def observe(q, u, frac, route, arrays, faults=True):
     return out
 
 
-def judge(u, frac, o, m_print, m_parse):
+def pre_text(pre):
+    out = []
+    for st in pre:
+        if st[0] in ("define", "define-bad"):
+            out.append("{}define_unit({!r}, {!r})".format("rejected " if st[0] == "define-bad" else "",
+                                                        st[1], st[2]))
+        elif st[0] == "style":
+            out.append("set_unit_style({})".format("FRACTION" if st[1] else "EXPONENTS"))
+        elif st[0] == "clear":
+            out.append("clear_unit_definitions()")
+        else:
+            out.append("show({}) of a quantity with unit {}".format(
+                st[2], text_of(X.units_from_json(st[1]))))
+    return out
+
+
+def judge(u, frac, o, m_print, m_parse, pre=()):
     fails = []
     style = "fraction" if frac else "exponents"
     want = X.sem(u)
     base = {"input": {"units": [[k, str(e)] for k, e in u], "style": style, "route": o["route"]},
             "case": {"u": X.units_json(u), "frac": frac, "route": o["route"]}}
+    if pre:
+        base["input"]["earlier in the session"] = pre_text(pre)
+        base["case"]["pre"] = [list(st) for st in pre]
+        base["carries_history"] = True
+        if o.get("pre_log"):
+            return [dict(base, signature="c13:history-step:" + str(o["pre_log"][0][0][0]),
+                         kind="disagreement", what="a step of the history before the judged print "
+                         "did not go as the harness expects: {}".format(o["pre_log"][0]))]
     if "build_exception" in o:
         return [dict(base, signature="c13:build:" + o["build_exception"].split(":")[0],
                      kind="disagreement", what="building the quantity raised " + o["build_exception"])]
@@ -229,6 +404,12 @@ def judge(u, frac, o, m_print, m_parse):
                           oracle="independent", what="the printed unit {!r} parses to other "
                           "exponents".format(s), impl=X.show(val), expected=X.show(want),
                           clause="same exponents"))
+    for where, same in sorted(o.get("shown", {}).items()):
+        if not same:
+            fails.append(dict(base, signature="c13:shown-differs:{}:{}".format(where, style),
+                              oracle="independent", what="{} does not show the unit string {!r} that "
+                              "a.unit returns".format(where, s), impl=where, expected=s,
+                              clause="every unit string the library prints"))
     if any(x[1] == "accepted" for x in o.get("faults", [])):
         pass    # a request meant to be rejected was accepted (C12 / C20 statement): not judged here
     else:
@@ -342,17 +523,24 @@ def routes_for(u):
 def run(ctx, cases, ref=False, use_model=True):
     """cases: list of (u, frac, route, arrays)"""
     import qexpy as q
-    obs = [observe(q, u, frac, route, arrays) for (u, frac, route, arrays) in cases]
+    cases = [tuple(c) + ((),) * (5 - len(c)) for c in cases]
+    obs = [observe(q, u, frac, route, arrays, pre=pre) for (u, frac, route, arrays, pre) in cases]
     mp = [None] * len(cases)
     ms = [None] * len(cases)
     if use_model:
-        mp = ctx.model([{"cmd": "uprint", "units": X.units_json(u), "frac": frac}
-                        for (u, frac, _, _) in cases], ref=ref)
+        # the model prints under the definitions the define / clear history leaves (`runReqs`)
+        mp = ctx.model([dict({"cmd": "uprint", "units": X.units_json(u), "frac": frac},
+                             **({"reqs": pre_reqs(pre)} if pre else {}))
+                        for (u, frac, _, _, pre) in cases], ref=ref)
         ms = ctx.model([{"cmd": "uparse", "s": o.get("s", "")} for o in obs], ref=ref)
     failures, nontriv, samples = [], set(), []
     dist = collections.Counter()
     same = 0
-    for (u, frac, route, arrays), o, a, b in zip(cases, obs, mp, ms):
+    for (u, frac, route, arrays, pre), o, a, b in zip(cases, obs, mp, ms):
+        if pre:
+            dist["after a history"] += 1
+            for st in pre:
+                dist["history step:" + st[0] + (":" + st[2] if st[0] == "print" else "")] += 1
         dist["style:" + ("fraction" if frac else "exponents")] += 1
         dist["route:" + route.split(":")[0].split("|")[0]] += 1
         if "|" in route:
@@ -370,7 +558,7 @@ def run(ctx, cases, ref=False, use_model=True):
             dist["nontrivial"] += 1
         if a and "s" in a and a["s"] == o.get("s"):
             same += 1
-        failures += judge(u, frac, o, a, b)
+        failures += judge(u, frac, o, a, b, pre)
         if len(samples) < 5 and len(u) > 1 and "s" in o:
             samples.append({"units": X.show(tuple(u)), "style": "fraction" if frac else "exponents",
                             "route": route, "printed": o["s"], "assign": o.get("assign"),
@@ -380,8 +568,9 @@ def run(ctx, cases, ref=False, use_model=True):
             "samples": samples, "distribution": dict(dist)}
 
 
-def gen_cases(rng, n, arrays_every=4):
+def gen_cases(rng, n, arrays_every=4, tags=None):
     cases = []
+    tags = tags if tags is not None else collections.Counter()
     for i, u in enumerate(sample_maps(rng, n)):
         for frac in (True, False):
             route = rng.choice(routes_for(u))
@@ -389,6 +578,25 @@ def gen_cases(rng, n, arrays_every=4):
             if ts and rng.random() < 0.5:
                 route += "|" + rng.choice(ts)      # ARGUMENT TYPES of the constant powers
             cases.append((u, frac, route, i % arrays_every == 0))
+    # HISTORIES before the judged print (deliberate: every class several times per run, both
+    # styles, integer and rational maps, string and arithmetic routes)
+    pool = sample_maps(rng, 0) + [u for u, _, _, _ in cases[::7]]
+    per_kind = max(6, n // 40)
+    for kind in HISTORY_KINDS:
+        made = tries = 0
+        while made < per_kind and tries < 20 * per_kind:
+            tries += 1
+            u = rng.choice(pool)
+            if len({k for k, _ in u} & set(NAMES)):
+                continue
+            frac = rng.random() < 0.5
+            pre = history(rng, kind, u, frac)
+            if pre is None:
+                continue
+            route = rng.choice(routes_for(u))
+            cases.append((u, frac, route, made % 3 == 0, pre))
+            tags["history:" + kind] += 1
+            made += 1
     # chains of two constant float powers (both styles; every 3rd also on arrays)
     for i, (u, route) in enumerate(chain_cases(rng, max(20, n // 10))):
         for frac in (True, False):
@@ -397,7 +605,8 @@ def gen_cases(rng, n, arrays_every=4):
 
 
 def correspond(ctx):
-    cases = gen_cases(ctx.rng, ctx.n(560, 6000))
+    tags = collections.Counter()
+    cases = gen_cases(ctx.rng, ctx.n(560, 6000), tags=tags)
     exhaustive = False
     if not ctx.quick:
         allmaps = list(exhaustive_maps())
@@ -405,6 +614,7 @@ def correspond(ctx):
         cases += [(u, frac, "string", False) for u in allmaps for frac in (True, False)]
         exhaustive = True
     r = run(ctx, cases)
+    r["distribution"].update(tags)
     r["exhaustive"] = exhaustive
     if exhaustive:
         r["distribution"]["exhaustive: every ordered map over <=4 of {m,s,kg,A}, exponents "
@@ -438,6 +648,7 @@ def replay(ctx, rp):
     if not c:
         return {"fails": False, "note": "replay file carries no concrete input", "payload": rp}
     u = X.units_from_json(c["u"])
-    o = observe(q, u, c["frac"], c["route"], True)
-    fs = [x for x in judge(u, c["frac"], o, None, None) if x.get("oracle") == "independent"]
+    pre = c.get("pre") or ()
+    o = observe(q, u, c["frac"], c["route"], True, pre=pre)
+    fs = [x for x in judge(u, c["frac"], o, None, None, pre) if x.get("oracle") == "independent"]
     return {"fails": bool(fs), "input": f.get("input"), "impl": o, "failures": fs}
